@@ -54,6 +54,8 @@ type C13Op struct {
 	// prepares rows with a table of its own), "wrapper" = a rendering wrapper's
 	// (the embedded table's method)
 	Through string `json:"through,omitempty"`
+	// render-time reg only: each invocation runs a pass over the inner table
+	Nest bool `json:"nest,omitempty"`
 	// render-time reg only: the callback panics (after logging and setting its
 	// property) when invoked in render pass number Panic (1-based); the harness
 	// recovers, that pass is void, the property is judged on the other passes
@@ -74,7 +76,13 @@ type C13Op struct {
 type C13Spec struct {
 	Ops    []C13Op `json:"ops"`
 	Passes int     `json:"passes"`
-	Via    string  `json:"via,omitempty"` // "" = t.InvokeRenderCallbacks(); "csv" = csv.Render(t), which invokes it once
+	Via    string  `json:"via,omitempty"` // "" = t.InvokeRenderCallbacks(); otherwise one of c13Vias
+	// Another table B with recording callbacks of its own (its Passes is
+	// ignored): every render-time invocation of a callback registered with
+	// "nest" runs one complete pass over B (through Inner.Via) from inside the
+	// callback - a table in a cell.  Both logs are judged, each against its own
+	// table's expected trace.
+	Inner *C13Spec `json:"inner,omitempty"`
 }
 
 var c13Owners = []string{"table", "column", "row", "cell"}
@@ -134,6 +142,9 @@ func (o C13Op) String() string {
 		}
 		if o.Through != "" {
 			extra += ",registered through " + o.Through
+		}
+		if o.Nest {
+			extra += ",renders the inner table"
 		}
 		return fmt.Sprintf("reg#%d(%s,%s,%s%s)", o.CB, ow, o.Time, o.Target, extra)
 	}
@@ -575,10 +586,14 @@ type c13Env struct {
 	objs    map[int]tabular.PropertyCallback // callback object of each id
 	twins   map[*c13Twin]c13TwinInfo
 
-	pass      int                      // render pass under way (1-based)
-	stamps    []*tabular.Cell          // local Cell variables
-	other     *tabular.ATable          // another table, a source of cell values
-	helper    *tabular.ATable          // another table, whose RegisterPropertyCallback method is used
+	pass      int             // render pass under way (1-based)
+	stamps    []*tabular.Cell // local Cell variables
+	other     *tabular.ATable // another table, a source of cell values
+	helper    *tabular.ATable // another table, whose RegisterPropertyCallback method is used
+	inner     *c13Env         // the table that "nest" callbacks render
+	innerVia  string
+	nested    int                      // passes this table underwent from inside another table's callbacks
+	finish    func()                   // build-only mode: reads the properties back, completes the observation
 	wrappers  map[string]c13Renderer   // rendering wrappers made once per run
 	inherited map[[2]int]map[int]bool  // properties a cell had already when its value was added
 	seenCells map[[2]int]*tabular.Cell // the object each cell-target invocation received
@@ -690,7 +705,23 @@ type c13Handle struct {
 }
 
 // invoked: what every recording callback does
-func (e *c13Env) invoked(id int, fail bool, boom int, o tabular.PropertyOwner) error {
+// nestedPass: one complete pass over this table, asked for from inside a callback of another table
+func (e *c13Env) nestedPass(via string) {
+	saved := e.render
+	e.render = true
+	func() {
+		defer func() {
+			if r := recover(); r != nil && via == "" {
+				panic(r)
+			}
+		}()
+		e.renderVia(via)
+	}()
+	e.render = saved
+	e.nested++
+}
+
+func (e *c13Env) invoked(id int, fail bool, boom int, nest bool, o tabular.PropertyOwner) error {
 	x := e.identify(o)
 	if p, ok := o.(*tabular.Cell); ok && x.K == "cell" {
 		if e.seenCells == nil {
@@ -717,6 +748,9 @@ func (e *c13Env) invoked(id int, fail bool, boom int, o tabular.PropertyOwner) e
 		e.addLog = append(e.addLog, ev)
 	}
 	o.SetProperty(c13Key(id), id)
+	if nest && e.render && e.inner != nil {
+		e.inner.nestedPass(e.innerVia)
+	}
 	if e.render && boom > 0 && boom == e.pass {
 		panic(c13Boom{id})
 	}
@@ -730,11 +764,12 @@ type c13Recorder struct {
 	id   int
 	fail bool
 	boom int
+	nest bool
 	env  *c13Env
 }
 
 func (c *c13Recorder) UpdateProperties(o tabular.PropertyOwner) error {
-	return c.env.invoked(c.id, c.fail, c.boom, o)
+	return c.env.invoked(c.id, c.fail, c.boom, c.nest, o)
 }
 
 // c13Twin: all twins of a run have equal contents (== on the pointees and
@@ -745,11 +780,12 @@ type c13TwinInfo struct {
 	id   int
 	fail bool
 	boom int
+	nest bool
 }
 
 func (c *c13Twin) UpdateProperties(o tabular.PropertyOwner) error {
 	in := c.env.twins[c]
-	return c.env.invoked(in.id, in.fail, in.boom, o)
+	return c.env.invoked(in.id, in.fail, in.boom, in.nest, o)
 }
 
 // c13Val: a callback that is a plain value
@@ -757,11 +793,12 @@ type c13Val struct {
 	id   int
 	fail bool
 	boom int
+	nest bool
 	env  *c13Env
 }
 
 func (c c13Val) UpdateProperties(o tabular.PropertyOwner) error {
-	return c.env.invoked(c.id, c.fail, c.boom, o)
+	return c.env.invoked(c.id, c.fail, c.boom, c.nest, o)
 }
 
 // callback returns the object for a registration: the same object again when
@@ -774,12 +811,12 @@ func (e *c13Env) callback(o C13Op) tabular.PropertyCallback {
 	switch o.Kind {
 	case "twin":
 		tw := &c13Twin{e}
-		e.twins[tw] = c13TwinInfo{o.CB, o.Fail, o.Panic}
+		e.twins[tw] = c13TwinInfo{o.CB, o.Fail, o.Panic, o.Nest}
 		cb = tw
 	case "val":
-		cb = c13Val{o.CB, o.Fail, o.Panic, e}
+		cb = c13Val{o.CB, o.Fail, o.Panic, o.Nest, e}
 	default:
-		cb = &c13Recorder{o.CB, o.Fail, o.Panic, e}
+		cb = &c13Recorder{o.CB, o.Fail, o.Panic, o.Nest, e}
 	}
 	e.objs[o.CB] = cb
 	return cb
@@ -956,14 +993,23 @@ type c13Obs struct {
 
 	Aborted      []string `json:"events_of_passes_aborted_by_a_panicking_callback,omitempty"`
 	NormalPasses int      `json:"passes_completed"`
+	Inner        *c13Obs  `json:"inner_table,omitempty"`
 
 	add, rnd []c13Ev
 	props    []c13Ev // (key, target)
 	regCode  map[int]int
 }
 
-func c13Exec(sp C13Spec) (ob c13Obs) {
-	env := &c13Env{t: tabular.New(), hdrID: -1, objs: map[int]tabular.PropertyCallback{}, twins: map[*c13Twin]c13TwinInfo{}, inherited: map[[2]int]map[int]bool{}}
+// c13Exec replays the history on a fresh table.  With buildOnly it stops after
+// the operations (the table is then rendered from inside another table's
+// callbacks) and env.finish completes the observation.
+func c13Exec(sp C13Spec, inner *c13Env, buildOnly bool) (ob *c13Obs, env *c13Env) {
+	env = &c13Env{t: tabular.New(), hdrID: -1, objs: map[int]tabular.PropertyCallback{}, twins: map[*c13Twin]c13TwinInfo{}, inherited: map[[2]int]map[int]bool{}}
+	env.inner = inner
+	if sp.Inner != nil {
+		env.innerVia = sp.Inner.Via
+	}
+	ob = &c13Obs{}
 	ob.Kind = "ok"
 	ob.regCode = map[int]int{}
 	defer func() {
@@ -1147,8 +1193,22 @@ func c13Exec(sp C13Spec) (ob c13Obs) {
 		}
 	}
 
+	readBack := func() {}
+	if buildOnly {
+		env.finish = func() {
+			defer func() {
+				if r := recover(); r != nil {
+					ob.Kind = "panic"
+					ob.Panic = fmt.Sprint(r)
+				}
+				ob.add, ob.rnd = env.addLog, env.rndLog
+			}()
+			ob.NormalPasses = env.nested
+			readBack()
+		}
+	}
 	env.render = true
-	for i := 0; i < sp.Passes; i++ {
+	for i := 0; i < sp.Passes && !buildOnly; i++ {
 		env.pass = i + 1
 		before := len(env.rndLog)
 		aborted := false
@@ -1178,79 +1238,84 @@ func c13Exec(sp C13Spec) (ob c13Obs) {
 	env.render = false
 
 	// liveness: read every callback's property back, through the table
-	sort.Ints(cids)
-	{
-		var u []int
-		for i, id := range cids {
-			if i == 0 || id != cids[i-1] {
-				u = append(u, id)
+	readBack = func() {
+		sort.Ints(cids)
+		{
+			var u []int
+			for i, id := range cids {
+				if i == 0 || id != cids[i-1] {
+					u = append(u, id)
+				}
 			}
+			cids = u
 		}
-		cids = u
-	}
-	has := func(o tabular.PropertyOwner, id int) bool { return o.GetProperty(c13Key(id)) != nil }
-	logged := map[string]bool{}
-	for _, e := range env.addLog {
-		logged[e.key()] = true
-	}
-	for _, e := range env.rndLog {
-		logged[e.key()] = true
-	}
-	for _, id := range cids {
-		if has(t, id) {
-			ob.props = append(ob.props, c13Ev{CB: id, X: c13Tgt{K: "table"}})
+		has := func(o tabular.PropertyOwner, id int) bool { return o.GetProperty(c13Key(id)) != nil }
+		logged := map[string]bool{}
+		for _, e := range env.addLog {
+			logged[e.key()] = true
 		}
-		for n := 0; n <= t.NColumns(); n++ {
-			if c := t.Column(n); c != nil && has(c, id) {
-				// ... and through every handle to that column taken earlier
-				live := true
-				for _, h := range env.handles {
-					if h.n == n && (h.h == nil || !has(h.h, id)) {
-						live = false
+		for _, e := range env.rndLog {
+			logged[e.key()] = true
+		}
+		for _, id := range cids {
+			if has(t, id) {
+				ob.props = append(ob.props, c13Ev{CB: id, X: c13Tgt{K: "table"}})
+			}
+			for n := 0; n <= t.NColumns(); n++ {
+				if c := t.Column(n); c != nil && has(c, id) {
+					// ... and through every handle to that column taken earlier
+					live := true
+					for _, h := range env.handles {
+						if h.n == n && (h.h == nil || !has(h.h, id)) {
+							live = false
+						}
+					}
+					if live {
+						ob.props = append(ob.props, c13Ev{CB: id, X: c13Tgt{K: "col", A: n}})
 					}
 				}
-				if live {
-					ob.props = append(ob.props, c13Ev{CB: id, X: c13Tgt{K: "col", A: n}})
+			}
+			for rid := range env.rows {
+				r := env.rowPtr(rid)
+				if r == nil {
+					continue
 				}
-			}
-		}
-		for rid := range env.rows {
-			r := env.rowPtr(rid)
-			if r == nil {
-				continue
-			}
-			if has(r, id) {
-				ob.props = append(ob.props, c13Ev{CB: id, X: c13Tgt{K: "row", A: rid}})
-			}
-			for c := 1; c <= len(r.Cells()); c++ {
-				if p := env.cellPtr(rid, c); p != nil && has(p, id) {
-					ev := c13Ev{CB: id, X: c13Tgt{K: "cell", A: rid, B: c}}
-					if env.inherited[[2]int{rid, c}][id] && !logged[ev.key()] {
-						continue // the value carried this property when it was added: no callback set it here
+				if has(r, id) {
+					ob.props = append(ob.props, c13Ev{CB: id, X: c13Tgt{K: "row", A: rid}})
+				}
+				for c := 1; c <= len(r.Cells()); c++ {
+					if p := env.cellPtr(rid, c); p != nil && has(p, id) {
+						ev := c13Ev{CB: id, X: c13Tgt{K: "cell", A: rid, B: c}}
+						if env.inherited[[2]int{rid, c}][id] && !logged[ev.key()] {
+							continue // the value carried this property when it was added: no callback set it here
+						}
+						ob.props = append(ob.props, ev)
 					}
-					ob.props = append(ob.props, ev)
 				}
 			}
-		}
-		// cells of a header row that a later AddHeaders replaced and whose row
-		// pointer the harness never learnt: no longer reachable through the
-		// table; read through the object the callbacks were handed
-		for rc, p := range env.seenCells {
-			if rc[0] != env.hdrID && rc[0] < len(env.rows) && env.rowPtr(rc[0]) == nil && has(p, id) {
-				ob.props = append(ob.props, c13Ev{CB: id, X: c13Tgt{K: "cell", A: rc[0], B: rc[1]}})
+			// cells of a header row that a later AddHeaders replaced and whose row
+			// pointer the harness never learnt: no longer reachable through the
+			// table; read through the object the callbacks were handed
+			for rc, p := range env.seenCells {
+				if rc[0] != env.hdrID && rc[0] < len(env.rows) && env.rowPtr(rc[0]) == nil && has(p, id) {
+					ob.props = append(ob.props, c13Ev{CB: id, X: c13Tgt{K: "cell", A: rc[0], B: rc[1]}})
+				}
 			}
-		}
-		// a header row whose pointer no callback ever received: its cells are still reachable
-		if env.hdrID >= 0 && env.rows[env.hdrID] == nil {
-			hs := t.Headers()
-			for i := range hs {
-				if has(&hs[i], id) {
-					ob.props = append(ob.props, c13Ev{CB: id, X: c13Tgt{K: "cell", A: env.hdrID, B: i + 1}})
+			// a header row whose pointer no callback ever received: its cells are still reachable
+			if env.hdrID >= 0 && env.rows[env.hdrID] == nil {
+				hs := t.Headers()
+				for i := range hs {
+					if has(&hs[i], id) {
+						ob.props = append(ob.props, c13Ev{CB: id, X: c13Tgt{K: "cell", A: env.hdrID, B: i + 1}})
+					}
 				}
 			}
 		}
 	}
-	return ob
+	if !buildOnly {
+		readBack()
+	}
+	return ob, env
 }
 
 // ---------------------------------------------------------------- grouping of failures (the verdict itself is Coq's)
@@ -1447,6 +1512,11 @@ func c13Sig(sp C13Spec, ob *c13Obs, sim *c13Sim, expRender []c13Ev, copyCol bool
 
 func c13Snippet(sp C13Spec) string {
 	var sb strings.Builder
+	if sp.Inner != nil {
+		in := *sp.Inner
+		in.Passes = 0
+		sb.WriteString("/* inner table B: " + c13Snippet(in) + " */ /* callbacks marked \"renders the inner table\" run one pass over B (" + map[bool]string{true: "B.InvokeRenderCallbacks()", false: in.Via}[in.Via == ""] + ") each time they are invoked */ ")
+	}
 	sb.WriteString("t := tabular.New(); ")
 	id := 0
 	hcount := 0
@@ -1513,6 +1583,9 @@ func c13Snippet(sp C13Spec) string {
 			if o.Panic > 0 {
 				rec = fmt.Sprintf("panickingInPass%d(%s)", o.Panic, rec)
 			}
+			if o.Nest {
+				rec = fmt.Sprintf("renderingTheInnerTable(%s)", rec)
+			}
 			fmt.Fprintf(&sb, "t.RegisterPropertyCallback(%s, %s, %s, %s); ", ow,
 				map[string]string{"add": "CB_AT_ADD", "pre": "CB_AT_RENDER_PRECELL", "render": "CB_AT_RENDER", "post": "CB_AT_RENDER_POSTCELL"}[o.Time],
 				map[string]string{"itself": "CB_ON_ITSELF", "cell": "CB_ON_CELL", "row": "CB_ON_ROW"}[o.Target], rec)
@@ -1578,11 +1651,18 @@ func c13Strs(evs []c13Ev) []string {
 	return xs
 }
 
-func c13Run(spec json.RawMessage) CaseOut {
-	var sp C13Spec
-	if err := json.Unmarshal(spec, &sp); err != nil {
-		panic(err)
-	}
+// c13Prep: what is known of a history before it is executed
+type c13Prep struct {
+	sp        C13Spec
+	names     []string
+	size      int
+	wf        bool
+	sim       *c13Sim
+	pass      []c13Ev // one complete render pass
+	expRender []c13Ev
+}
+
+func c13Prepare(sp C13Spec) *c13Prep {
 	// a callback id registered again is the same object again: it behaves as first described
 	{
 		first := map[int]C13Op{}
@@ -1591,7 +1671,7 @@ func c13Run(spec json.RawMessage) CaseOut {
 				continue
 			}
 			if f, ok := first[o.CB]; ok {
-				sp.Ops[i].Kind, sp.Ops[i].Fail, sp.Ops[i].Panic = f.Kind, f.Fail, f.Panic
+				sp.Ops[i].Kind, sp.Ops[i].Fail, sp.Ops[i].Panic, sp.Ops[i].Nest = f.Kind, f.Fail, f.Panic, f.Nest
 				if sp.Ops[i].Time == "add" {
 					sp.Ops[i].Panic = 0 // the flag only matters at render time
 				}
@@ -1600,35 +1680,34 @@ func c13Run(spec json.RawMessage) CaseOut {
 			}
 		}
 	}
-	names := make([]string, len(sp.Ops))
+	pr := &c13Prep{sp: sp, sim: newC13Sim()}
+	pr.names = make([]string, len(sp.Ops))
 	for i, o := range sp.Ops {
-		names[i] = o.String()
+		pr.names[i] = o.String()
 	}
-	size := len(sp.Ops)*4 + sp.Passes
+	pr.size = len(sp.Ops)*4 + sp.Passes
 	for _, o := range sp.Ops {
-		size += o.N
+		pr.size += o.N
 	}
 	if sp.Via != "" {
-		size++
+		pr.size++
 	}
-	wf := c13WF(sp.Ops)
-	sim := newC13Sim()
-	var expRender []c13Ev
-	normalPred := 0
-	if wf {
+	pr.wf = c13WF(sp.Ops)
+	if pr.wf {
 		for _, o := range sp.Ops {
-			sim.step(o)
+			pr.sim.step(o)
 		}
 		// passes in which a panicking callback is due are void; the others must be complete
-		pass := sim.renderPass()
+		pr.pass = pr.sim.renderPass()
 		fires := map[int]bool{}
-		for _, e := range pass {
+		for _, e := range pr.pass {
 			fires[e.CB] = true
 		}
 		anyBoom := false
+		normalPred := 0
 		for p := 1; p <= sp.Passes; p++ {
 			aborted := false
-			for _, q := range sim.regs {
+			for _, q := range pr.sim.regs {
 				if q.Panic == p && fires[q.CB] {
 					aborted = true
 				}
@@ -1637,20 +1716,20 @@ func c13Run(spec json.RawMessage) CaseOut {
 				anyBoom = true
 			} else {
 				normalPred++
-				expRender = append(expRender, pass...)
+				pr.expRender = append(pr.expRender, pr.pass...)
 			}
 		}
 		if anyBoom && normalPred == 0 {
-			wf = false // nothing left to judge
+			pr.wf = false // nothing left to judge
 		}
 	}
-	if !wf {
-		// outside the quantifier (only a shrink candidate can get here): not executed
-		return CaseOut{Coq: cqPair(cqPair("[]", cqNat(0)), "(Ok (mkObs [] [] [] [] [] []))"), Desc: map[string]interface{}{"sig": "", "skipped": "history outside the property's quantifier"},
-			Size: size, Tags: []string{"not-wf"}, Key: "notwf" + string(spec), Nontrivial: false}
-	}
+	return pr
+}
 
-	ob := c13Exec(sp)
+// c13Complete turns an observation into the Coq case "(input, observed)";
+// passes < 0: the number of passes that completed, as observed
+func c13Complete(pr *c13Prep, ob *c13Obs, passes int) string {
+	sp, sim := pr.sp, pr.sim
 	// registration results, in the order of the model's registrations
 	ob.Reg = nil
 	for _, origin := range sim.coqRegOrigin {
@@ -1660,9 +1739,11 @@ func c13Run(spec json.RawMessage) CaseOut {
 		}
 		ob.Reg = append(ob.Reg, code)
 	}
-	passes := sp.Passes
-	if ob.Kind == "ok" {
-		passes = ob.NormalPasses
+	if passes < 0 {
+		passes = sp.Passes
+		if ob.Kind == "ok" {
+			passes = ob.NormalPasses
+		}
 	}
 	input := cqPair(cqList(sim.coq), cqNat(passes))
 	copyCol := false
@@ -1675,12 +1756,9 @@ func c13Run(spec json.RawMessage) CaseOut {
 	for _, p := range ob.props {
 		ob.Props = append(ob.Props, fmt.Sprintf("#%d@%s", p.CB, p.X))
 	}
-	ob.ExpAdd, ob.ExpRnd = c13Strs(sim.add), c13Strs(expRender)
-	ob.History = strings.Join(names, "; ")
-	ob.Sig = c13Sig(sp, &ob, sim, expRender, copyCol)
-	if ob.Sig != "" {
-		ob.Snippet = c13Snippet(sp)
-	}
+	ob.ExpAdd, ob.ExpRnd = c13Strs(sim.add), c13Strs(pr.expRender)
+	ob.History = strings.Join(pr.names, "; ")
+	ob.Sig = c13Sig(sp, ob, sim, pr.expRender, copyCol)
 
 	var obsCoq string
 	if ob.Kind == "panic" {
@@ -1703,11 +1781,100 @@ func c13Run(spec json.RawMessage) CaseOut {
 		}
 		obsCoq = fmt.Sprintf("(Ok (mkObs %s %s %s %s %s %s))", cqList(regs), c13Events(ob.add), c13Events(ob.rnd), cqList(props), views(ob.add), views(ob.rnd))
 	}
+	return cqPair(input, obsCoq)
+}
+
+func c13Run(spec json.RawMessage) CaseOut {
+	var sp C13Spec
+	if err := json.Unmarshal(spec, &sp); err != nil {
+		panic(err)
+	}
+	pr := c13Prepare(sp)
+	sp = pr.sp
+	sim, expRender, size := pr.sim, pr.expRender, pr.size
+	wf := pr.wf
+	var prB *c13Prep
+	nestedPasses := 0
+	if wf && sp.Inner != nil {
+		// the inner table: a plain history; nothing panics on either side
+		in := *sp.Inner
+		in.Inner = nil
+		for _, o := range append(append([]C13Op{}, in.Ops...), sp.Ops...) {
+			if o.K == "reg" && o.Panic != 0 {
+				wf = false
+			}
+		}
+		for _, o := range in.Ops {
+			if o.K == "reg" && o.Nest {
+				wf = false
+			}
+		}
+		// it undergoes one pass per render-time invocation of a nesting callback
+		nests := map[int]bool{}
+		for _, q := range sim.regs {
+			if q.Nest {
+				nests[q.CB] = true
+			}
+		}
+		for _, e := range expRender {
+			if nests[e.CB] {
+				nestedPasses++
+			}
+		}
+		in.Passes = nestedPasses
+		prB = c13Prepare(in)
+		if !prB.wf {
+			wf = false
+		}
+		size += prB.size
+	}
+	if !wf {
+		// outside the quantifier (only a shrink candidate can get here): not executed
+		return CaseOut{Coq: cqPair(cqPair(cqPair("[]", cqNat(0)), "(Ok (mkObs [] [] [] [] [] []))"), "[]"), Desc: map[string]interface{}{"sig": "", "skipped": "history outside the property's quantifier"},
+			Size: size, Tags: []string{"not-wf"}, Key: "notwf" + string(spec), Nontrivial: false}
+	}
+
+	var obB *c13Obs
+	var envB *c13Env
+	if prB != nil {
+		obB, envB = c13Exec(prB.sp, nil, true)
+	}
+	ob, _ := c13Exec(sp, envB, false)
+	caseCoq := c13Complete(pr, ob, -1)
+	subs := "[]"
+	if prB != nil {
+		envB.finish()
+		subs = "[" + c13Complete(prB, obB, nestedPasses) + "]"
+		ob.Inner = obB
+		if ob.Sig != "" || obB.Sig != "" {
+			// whatever is wrong on either side: the class is the nesting
+			ob.Sig = "render-pass-with-a-nested-pass-over-another-table"
+		}
+	}
+	if ob.Sig != "" {
+		ob.Snippet = c13Snippet(sp)
+	}
+	caseCoq = cqPair(caseCoq, subs)
 
 	// tags: the input distribution
 	ncolsTag := fmt.Sprintf("ncols=%d", sim.ncols)
 	if sim.ncols >= 10 {
 		ncolsTag = "ncols>=10"
+	}
+	nestTags := []string{}
+	if prB != nil {
+		nestTags = append(nestTags, "nested-pass-over-another-table", fmt.Sprintf("nested-passes=%d", min(nestedPasses, 10)))
+		switch ib, oa := len(prB.sim.order), len(sim.order); {
+		case ib < oa:
+			nestTags = append(nestTags, "inner-table-shorter")
+		case ib == oa:
+			nestTags = append(nestTags, "inner-table-as-long")
+		default:
+			nestTags = append(nestTags, "inner-table-longer")
+		}
+		if prB.sp.Via != "" {
+			nestTags = append(nestTags, "inner-via-renderer")
+		}
 	}
 	tags := []string{fmt.Sprintf("passes=%d", sp.Passes), "via=" + map[bool]string{true: "direct", false: sp.Via}[sp.Via == ""],
 		ncolsTag, fmt.Sprintf("rows=%d", len(sim.order))}
@@ -1778,12 +1945,12 @@ func c13Run(spec json.RawMessage) CaseOut {
 			tags = append(tags, "detached-row")
 		}
 	}
-	tags = dedupe(tags)
+	tags = dedupe(append(tags, nestTags...))
 	if ob.Sig != "" {
 		tags = append(tags, "sig="+ob.Sig)
 	}
 	return CaseOut{
-		Coq:        cqPair(input, obsCoq),
+		Coq:        caseCoq,
 		Desc:       ob,
 		Size:       size,
 		Tags:       tags,
@@ -2028,6 +2195,26 @@ func c13RandHistory(r *RNG, maxOps, maxRegs int) C13Spec {
 	if r.Pct(30) {
 		sp.Via = pick(r, c13Vias)
 	}
+	if maxRegs > 0 && r.Pct(12) {
+		// a table in a cell: the render-time callbacks that do not panic may render an inner table
+		in := c13RandHistory(r, 8, 0)
+		in.Inner = nil
+		in.Ops = append(in.Ops, C13Op{K: "reg", Owner: "table", Time: pick(r, []string{"pre", "render", "post"}), Target: "cell", CB: 1},
+			C13Op{K: "reg", Owner: "table", Time: "post", Target: "itself", CB: 2})
+		any := false
+		for i := range sp.Ops {
+			if sp.Ops[i].K == "reg" {
+				sp.Ops[i].Panic = 0
+				if sp.Ops[i].Time != "add" && r.Pct(60) {
+					sp.Ops[i].Nest = true
+					any = true
+				}
+			}
+		}
+		if any {
+			sp.Inner = &in
+		}
+	}
 	return sp
 }
 
@@ -2113,6 +2300,7 @@ func c13Gen(r *RNG, tier string) []json.RawMessage {
 	c13GenValues(r, tier, add)
 	c13GenPanics(r, tier, func(sp C13Spec) { out = append(out, mustJSON(sp)) })
 	c13GenThrough(r, tier, add)
+	c13GenNested(r, tier, func(sp C13Spec) { out = append(out, mustJSON(sp)) })
 	var long []json.RawMessage
 	c13GenLong(r, tier, func(sp C13Spec) { long = append(long, mustJSON(sp)) })
 	// random histories
@@ -2270,6 +2458,62 @@ func c13GenThrough(r *RNG, tier string, add func([]C13Op)) {
 				add(ops)
 				if tier == "thorough" && in.since != len(shape) {
 					add(c13Insert(shape, len(shape), o))
+				}
+			}
+		}
+	}
+}
+
+// A table in a cell: a render-time callback of table A - every firing
+// combination, on the first, a middle and the last owner instance - runs a
+// complete pass over another table B (fewer, as many, more rows than A; asked
+// for directly and through a renderer) which has recording callbacks of its
+// own.  A always also carries a plain callback on every cell, so that every
+// row of A is accounted for; each table's log is judged against its own trace.
+func c13GenNested(r *RNG, tier string, emit func(C13Spec)) {
+	outers := [][]C13Op{
+		{opN("items", 1), opN("items", 1), opN("items", 1)},
+		{opN("headers", 2), opN("items", 2), opK("sep"), opN("items", 1)},
+	}
+	inner := func(rows int) []C13Op {
+		ops := []C13Op{{K: "reg", Owner: "table", Time: "pre", Target: "itself", CB: 1}, {K: "reg", Owner: "table", Time: "render", Target: "cell", CB: 2}}
+		for i := 0; i < rows; i++ {
+			ops = append(ops, opN("items", 1+i%2))
+		}
+		return append(ops, C13Op{K: "reg", Owner: "row", R: rows - 1, Time: "post", Target: "itself", CB: 3},
+			C13Op{K: "reg", Owner: "row", R: 0, Time: "pre", Target: "cell", CB: 4})
+	}
+	n := 0
+	for _, shape := range outers {
+		for _, c := range c13Combos() {
+			if c.time == "add" {
+				continue
+			}
+			ins := c13Instances(shape, c.owner)
+			if len(ins) > 3 {
+				ins = []c13Inst{ins[0], ins[len(ins)/2], ins[len(ins)-1]}
+			}
+			for _, in := range ins {
+				o := c13RegOp(c, in, 1)
+				o.Nest = true
+				o.Kind = []string{"", "twin", "val"}[n%3]
+				ops := append(append([]C13Op{}, shape...), o, C13Op{K: "reg", Owner: "table", Time: "post", Target: "cell", CB: 2})
+				if !c13Fires(append(append([]C13Op{}, shape...), o)) {
+					continue
+				}
+				sizes := []int{1, 3, 6}
+				if tier == "thorough" {
+					sizes = []int{1, 2, 3, 4, 6, 70}
+				}
+				for _, rows := range sizes {
+					for _, iv := range []string{"", c13Vias[n%len(c13Vias)]} {
+						sp := C13Spec{Ops: ops, Passes: 1 + n%2, Inner: &C13Spec{Ops: inner(rows), Via: iv}}
+						if n%7 == 6 {
+							sp.Via = c13Vias[(n/7)%len(c13Vias)]
+						}
+						emit(sp)
+						n++
+					}
 				}
 			}
 		}
@@ -2664,6 +2908,7 @@ func c13Shrink(spec json.RawMessage) []json.RawMessage {
 	var out []json.RawMessage
 	emit := func(c C13Spec) {
 		if c13WF(c.Ops) {
+			c.Inner = sp.Inner // reductions of the outer table keep the inner one
 			out = append(out, mustJSON(c))
 		}
 	}
@@ -2704,6 +2949,18 @@ func c13Shrink(spec json.RawMessage) []json.RawMessage {
 			clear(func(q *C13Op) { q.Panic = 0 })
 		}
 	}
+	if sp.Inner != nil {
+		// the inner table: gone, or one step smaller
+		for _, raw := range c13Shrink(mustJSON(C13Spec{Ops: sp.Inner.Ops, Passes: 0, Via: sp.Inner.Via})) {
+			var in C13Spec
+			if json.Unmarshal(raw, &in) == nil {
+				in.Passes = 0
+				out = append(out, mustJSON(C13Spec{Ops: sp.Ops, Passes: sp.Passes, Via: sp.Via, Inner: &in}))
+			}
+		}
+		// without the inner table
+		out = append(out, mustJSON(C13Spec{Ops: sp.Ops, Passes: sp.Passes, Via: sp.Via}))
+	}
 	if sp.Passes > 0 {
 		emit(C13Spec{Ops: sp.Ops, Passes: sp.Passes - 1, Via: sp.Via})
 	}
@@ -2717,7 +2974,7 @@ func init() {
 	register(&Prop{
 		ID:       "C13",
 		Imports:  "From Tab Require Import Run.Glue Run.C13Run.",
-		CaseType: "(input * res obs)",
+		CaseType: "(input * res obs * list (input * res obs))",
 		CaseFn:   "C13_case",
 		ModelFn:  "C13_model",
 		Rule: "histories through the public API: NewRow / Row.Add (detached and attached rows) / AddRow / AppendNewRow / AddRowItems / AddSeparator / AddHeaders " +
@@ -2731,6 +2988,7 @@ func init() {
 			"cell values with a history: a local Cell variable with 0-2 callbacks registered upon it added twice (one row, two rows, detached row) with further registrations on each stored copy in both orders; the value of a table cell (body, header) or of another table's cell added at another column position, into attached and detached rows, with column cell callbacks of every time on both columns (a stored copy is a new cell of its row that starts with the callbacks the value carried: shipped to the model as Row.Add plus those registrations); " +
 			"a callback that panics in one render pass (the harness recovers): that pass is void, every other pass before and after it must be complete - every firing render-time combination x shape; " +
 			"render passes asked for through every entry point of every renderer (package-level Render / RenderTo and the methods of a reused wrapper for csv, json, markdown, texttable; html's wrapper methods; auto.Render / RenderTo / Wrap with 7 styles: 42 paths besides t.InvokeRenderCallbacks()), in turn over all families, and on tables of 47 / 48 / 49 / 100 rows (separators count): exactly one pass per call; " +
+			"a table in a cell: a render-time callback of the table (every firing combination, first / middle / last owner instance, three kinds of callback object) runs a complete pass over another table with recording callbacks of its own (1 / 3 / 6 rows against 3-4, asked for directly and through a renderer) from inside the pass - both tables' logs are judged, each against its own history; " +
 			"registrations made through the RegisterPropertyCallback method of another table object and of a rendering wrapper (every firing single registration); " +
 			"every invocation also reports what it can see - the number of cells of the row handed over, or of the row of the cell handed over - compared with the row 'with its cells' as the operation leaves it (add time) and as the table has it (render time); " +
 			"seeded random histories of up to 12 operations with up to 4 registrations (kinds, failures, panics, re-registered objects, handles, cell values, rows past the column capacity); " +
